@@ -397,17 +397,39 @@ end Helpers
 
 section Property
 
+/-- the loop re-emits exactly the deposits named by the positional specification -/
+theorem filterBy_positional (mt : Dep → Bool) (m : List (Nat × Status)) (fs : List Bool) (ds : List Dep) :
+    (filterBy mt ⟨m, fs⟩ ds).1 = pick ds (emitFlags mt m fs ds) := by
+  induction ds generalizing m fs with
+  | nil => simp [filterBy, emitFlags, pick]
+  | cons d r ih =>
+    by_cases hm : mt d = true
+    · rcases fs with _ | ⟨f, _ | ⟨f2, fr⟩⟩ <;> (try cases f) <;> (try cases f2) <;>
+        cases hst : lookup m d.key <;>
+        simp [filterBy, isExecuted, emitFlags, pick, hm, hst, ih]
+    · have hm' : mt d = false := by simpa using hm
+      simp [filterBy, emitFlags, pick, hm', ih]
+
 /-- **C17 (a).** For every deposit set, matcher, status map and fault stream the common retry loop satisfies P17:
-    only matching, not-executed deposits are re-emitted, in block order; all of them when no store call fails;
+    exactly the deposits named by the positional specification `emitFlags` are re-emitted (a deposit is re-emitted iff
+    it matches, is not executed and its own store calls succeeded), in block order;
     an emitted deposit that was stuck pending is released (failed); nothing else is written. -/
 theorem filterBy_P17 (mt : Dep → Bool) (s : Store) (ds : List Dep) :
     P17 s.m s.faults mt ds (filterBy mt s ds).1 (filterBy mt s ds).2.m := by
-  obtain ⟨h1, _, h3, h4⟩ := filterBy_spec mt s ds
-  refine ⟨h1, ?_, h4, ?_⟩
-  · have := filterBy_count mt s ds
-    omega
+  obtain ⟨_, _, h3, h4⟩ := filterBy_spec mt s ds
+  refine ⟨?_, h4, ?_⟩
+  · obtain ⟨m, fs⟩ := s; exact filterBy_positional mt m fs ds
   · intro d _
     exact h3 d.key
+
+/-- consequences of the positional specification kept as theorems: only eligible deposits, in block order, and at
+    most one eligible deposit withheld per failing store call -/
+theorem filterBy_sublist_count (mt : Dep → Bool) (s : Store) (ds : List Dep) :
+    (filterBy mt s ds).1.Sublist (eligible s.m mt ds) ∧
+    (eligible s.m mt ds).length ≤ (filterBy mt s ds).1.length + s.faults.count true := by
+  refine ⟨(filterBy_spec mt s ds).1, ?_⟩
+  have := filterBy_count mt s ds
+  omega
 
 /-- in particular: when no store call fails, exactly the eligible deposits are re-emitted, in block order -/
 theorem filterBy_exact (mt : Dep → Bool) (s : Store) (ds : List Dep) (hf : faultFree s = true) :
@@ -429,7 +451,7 @@ theorem retryV1_P17 (s : Store) (ds : List Dep) :
 theorem retry_never_emits_executed (res dest : Nat) (s : Store) (ds : List Dep) (d : Dep)
     (hd : d ∈ (filterDeposits res dest s ds).1) :
     d ∈ ds ∧ d.dest = dest ∧ d.res = res ∧ lookup s.m d.key ≠ .executed := by
-  have h := (filter_P17 res dest s ds).1.subset hd
+  have h := (filterBy_spec (isMatch res dest) s ds).1.subset hd
   simp only [eligible, List.mem_filter, isMatch, Bool.and_eq_true, decide_eq_true_eq] at h
   exact ⟨h.1, h.2.1.1, h.2.1.2, h.2.2⟩
 
